@@ -355,3 +355,52 @@ async fn send_http_error(stream: &mut TcpStream, code: u16, message: &str) -> Re
         .await
         .map_err(AnyTlsError::Io)
 }
+
+/// Verification hooks (feature `verif`): the private request parsing / rewriting functions.
+#[cfg(feature = "verif")]
+pub mod verif_http {
+    use super::*;
+
+    /// what `parse_http_request` derived from a header block
+    pub struct Parsed {
+        pub method: String,
+        pub version: String,
+        pub host: String,
+        pub port: u16,
+        pub path: String,
+        pub is_connect: bool,
+        pub headers: Vec<String>,
+        pub body: Vec<u8>,
+    }
+
+    pub fn find_header_end(buf: &[u8]) -> Option<usize> {
+        super::find_header_end(buf)
+    }
+
+    pub async fn read_http_header(stream: &mut TcpStream) -> Result<(Vec<u8>, Vec<u8>)> {
+        super::read_http_header(stream).await
+    }
+
+    /// `parse_http_request`, plus `build_forward_request` of its result for non-CONNECT requests
+    pub fn parse_and_build(header: &str, body: Vec<u8>) -> Result<(Parsed, Option<Vec<u8>>)> {
+        let req = super::parse_http_request(header, body)?;
+        let fwd = if req.is_connect {
+            None
+        } else {
+            Some(super::build_forward_request(&req)?)
+        };
+        Ok((
+            Parsed {
+                method: req.method,
+                version: req.version,
+                host: req.host,
+                port: req.port,
+                path: req.path,
+                is_connect: req.is_connect,
+                headers: req.headers,
+                body: req.body,
+            },
+            fwd,
+        ))
+    }
+}
